@@ -433,26 +433,60 @@ def r3(ctx, recomputers):
             if set(bt[0][2]) != {E, K}:
                 return None
             return cm[0]
+        # the two updates are classified by n = popcount(between(a,k) & combined): each guard is evaluated for n = 0, 1, 2, 3
+        def guard_holds(g, n, betw):
+            """does guard g (taken edge) hold when popcount(betw) == n?  None = not a condition on that count"""
+            c = bb(g['cond'])
+            pc = ('popcnt', betw)
+            if c[0] in ('bbeq', 'bbne') and ('bb0',) in c[1:] and betw in c[1:]:
+                tv = (n == 0) if c[0] == 'bbeq' else (n != 0)
+                t_ = truth(g)
+                return None if t_ is None else (tv == t_)
+            if c == pc or (c[0] == 'cast' and c[1] == pc):
+                vals = g['vals']
+                if 'otherwise' in vals:
+                    listed = [v for v in g['all'] if v != 'otherwise']
+                    return n not in listed
+                return n in vals
+            if c[0] == 'bin' and c[1] in ('Eq', 'Ne', 'Lt', 'Le', 'Gt', 'Ge') and c[3][0] == 'int' and c[2] == pc:
+                k = c[3][1]
+                tv = {'Eq': n == k, 'Ne': n != k, 'Lt': n < k, 'Le': n <= k, 'Gt': n > k, 'Ge': n >= k}[c[1]]
+                t_ = truth(g)
+                return None if t_ is None else (tv == t_)
+            return None
+
+        def when(c, betw):
+            gs = loop_guards(s, loop, c['blk'])
+            out = set()
+            for n_ in (0, 1, 2, 3):
+                hs = [guard_holds(g, n_, betw) for g in gs]
+                if any(h is None for h in hs):
+                    return None
+                if all(hs):
+                    out.add(n_)
+            return out
         okc = okp = False
+        unk = False
         for c in upd['checkers']:
             v = bb(c['argvals'][1])
-            gs = loop_guards(s, loop, c['blk'])
-            if v == ('single', E) and len(gs) == 1 and truth(gs[0]) is True:
-                g = bb(gs[0]['cond'])
-                if g[0] == 'bbeq' and ('bb0',) in g[1:]:
-                    other = [x for x in g[1:] if x != ('bb0',)]
-                    if other and between_of(other[0]) is not None:
-                        okc = True
+            betws = [x for g in loop_guards(s, loop, c['blk']) for x in walk(bb(g['cond'])) if between_of(x) is not None]
+            if v == ('single', E) and betws:
+                wn = when(c, betws[0])
+                if wn is None:
+                    unk = True
+                elif wn == {0}:
+                    okc = True
         for c in upd['pinned']:
             v = bb(c['argvals'][1])
-            gs = loop_guards(s, loop, c['blk'])
-            bo = between_of(v)
-            if bo is not None and len(gs) == 2:
-                conds = [(bb(g['cond']), truth(g)) for g in gs]
-                has_nonempty = any(c_[0] == 'bbeq' and ('bb0',) in c_[1:] and v in c_[1:] and t is False for c_, t in conds)
-                has_one = any(c_ == ('bin', 'Eq', ('popcnt', v), ('int', 1, 'u32')) and t is True for c_, t in conds)
-                if has_nonempty and has_one:
+            if between_of(v) is not None:
+                wn = when(c, v)
+                if wn is None:
+                    unk = True
+                elif wn == {1}:
                     okp = True
+        if unk and not (okc and okp):
+            ctx.inconclusive(R, '%s: the scan body is guarded by something other than the number of pieces between attacker and king' % key)
+            continue
         if okc:
             ctx.ok(R, '%s: between(a,k) & combined empty -> checkers ^= {a}' % key, w)
         else:
